@@ -31,4 +31,20 @@ Anc(par, u, fuel) == IF u = -1 \/ fuel = 0 THEN {} ELSE {u} \cup Anc(par, par[u]
 Below(par, chosen, v) == {i - 1 : i \in {j \in 1..Len(chosen) : v \in Anc(par, chosen[j], Cardinality(DOMAIN par) + 1)}}
 Reduced(par, chosen) == {c \in {Below(par, chosen, v) : v \in DOMAIN par} : Cardinality(c) >= 2}
 SameRoot(par, chosen) == \E v \in DOMAIN par : par[v] = -1 /\ Cardinality(Below(par, chosen, v)) = Len(chosen)
+
+\* ---- generated trees (Tree.generate_star / generate_comb / generate_balanced) as clade sets over leaves lo..lo+n-1 ----
+StarClades(n) == IF n >= 2 THEN {0..(n - 1)} ELSE {}
+CombClades(n) == {i..(n - 1) : i \in 0..(n - 2)}
+\* balanced: the leaves below a node are handed to its children in order, floor(n / arity) each, the last child takes the rest;
+\* fewer leaves than the arity hang directly under the node
+RECURSIVE BalClades(_, _, _)
+BalClades(lo, n, k) ==
+  IF n <= 1 THEN {}
+  ELSE {lo..(lo + n - 1)} \cup
+       (IF n <= k THEN {}
+        ELSE LET q == n \div k IN
+             UNION ({BalClades(lo + (i - 1) * q, q, k) : i \in 1..(k - 1)} \cup {BalClades(lo + (k - 1) * q, n - (k - 1) * q, k)}))
+\* a binary resolution of a topology: a topology on the same leaves that keeps every clade and whose every clade splits in two
+IsBinary(C, S) == IsTopology(C, S) /\ Cardinality(C) = Cardinality(S) - 1
+Resolves(C2, C1, S) == IsBinary(C2, S) /\ C1 \subseteq C2
 =============================================================================
